@@ -21,7 +21,10 @@ from calls import BadType, key_of, limit_jvm, retry, run_call, validate_calls, w
 
 PROP = "C17"
 # operations whose expected behaviour is in the code but not in the property text: drift, never a violation
-DRIFT_OPS = {"partition_refusal", "xor_prefix", "chunks"}
+DRIFT_OPS = {"partition_refusal", "xor_prefix", "chunks",
+             # the property states the round trip int_from_bytes(int_to_bytes(x, w)) == x (op int_rt), not the byte order or the
+             # width chosen for w = -1; add_leading_zeros is a helper the property does not mention
+             "int_to_bytes", "int_to_bytes_small", "int_from_bytes", "int_from_bytes_small", "add_leading_zeros"}
 
 _IMPL = None
 
@@ -60,7 +63,7 @@ def bl(x):
 
 
 def bll(xs):
-    if not isinstance(xs, list):
+    if not isinstance(xs, (list, tuple)):        # "the same list": a sequence with the same items in the same order
         raise BadType(type(xs).__name__)
     return [bl(x) for x in xs]
 
@@ -112,10 +115,20 @@ def _db_obj(c):
 
 def _convert_db(c):
     du = impl()[0]
-    r = du.convert_database_keyword_to_bytes(_db_obj(c))
+    obj = _db_obj(c)
+    r = du.convert_database_keyword_to_bytes(obj)
     if not isinstance(r, dict):
         raise BadType(type(r).__name__)
-    return [[bl(k), bll(v)] for k, v in r.items()]
+    # a dict: the order of its keys is not part of the answer; reported in the order of the JSON object
+    want = []
+    for k in obj:
+        try:
+            want.append(k.encode("utf8"))
+        except Exception:
+            pass
+    pos = {k: i for i, k in enumerate(want)}
+    items = sorted(r.items(), key=lambda kv: pos.get(kv[0], len(pos)))
+    return [[bl(k), bll(v)] for k, v in items]
 
 
 def _convert(x, fmt):
